@@ -64,6 +64,9 @@ pub struct Profile {
     pub bursts: bool,
     /// maximum length (characters) of a slice of a real recording (`/repo/benches/data/*.txt`)
     pub recorded_max: usize,
+    /// resizes to and from very wide / very tall geometries (513..70000 in one dimension) allowed;
+    /// only for checks whose per-event cost does not grow with cells x characters
+    pub giant_resizes: bool,
 }
 
 impl Profile {
@@ -105,6 +108,7 @@ impl Profile {
             huge: true,
             bursts: false,
             recorded_max: 200,
+            giant_resizes: false,
         }
     }
 
@@ -257,6 +261,18 @@ pub fn gen_resize(r: &mut Rng, cols: usize, rows: usize, max_cols: usize, max_ro
         _ => gen_size(r, max_cols, max_rows),
     };
     (c.min(max_cols).max(1), rw.min(max_rows).max(1))
+}
+
+/// A very wide or very tall resize target: widths / heights between the ordinary ones (<= 512) and
+/// the gigantic ones, at and beyond the 16-bit boundary; 1-3 cells in the other dimension.
+pub fn giant_resize_target(r: &mut Rng) -> (usize, usize) {
+    let big = *r.pick(&[513usize, 600, 1000, 2048, 2049, 3000, 4096, 8191, 9999, 10_000, 12_000, 24_000, 32_768, 65_535, 65_536, 70_000]);
+    let small = 1 + r.usize_below(3);
+    if r.chance(2, 3) {
+        (big, small)
+    } else {
+        (small, big)
+    }
 }
 
 pub fn gen_limit(r: &mut Rng) -> Option<usize> {
@@ -417,7 +433,13 @@ pub fn inert_item(r: &mut Rng) -> String {
             let implemented = "@ABCDEFGHIJKLMPSTWXZ`abdefghlmrstu";
             let finals: Vec<char> = (0x40u8..=0x7e).map(|b| b as char).filter(|c| !implemented.contains(*c)).collect();
             let intro = *r.pick(&["\x1b[", "\u{9b}"]);
-            format!("{}{}{}", intro, r.pick(&["", "0", "1", "5;7", "65535", "1:2", ";", "8;3;3"]), r.pick(&finals))
+            let params = *r.pick(&["", "0", "1", "5;7", "65535", "1:2", ";", "8;3;3", "2", "3;1"]);
+            if r.chance(1, 5) {
+                // a character beyond U+009F ends the sequence like an (unimplemented) final byte
+                let f = *r.pick(&['\u{a0}', '\u{e9}', '\u{ff}', '\u{3a9}', '\u{65e5}', '\u{1f600}', '\u{2028}', '\u{feff}']);
+                return format!("{}{}{}", intro, params, f);
+            }
+            format!("{}{}{}", intro, params, r.pick(&finals))
         }
         6 => {
             // CSI with private marker < = > (any final), or ? with a final other than h / l
